@@ -459,7 +459,8 @@ func (g *syn) method(d int, static bool) string {
 		g.o.Kinds, g.o.budget = kinds, budget
 	}()
 	g.o.inMethod = true
-	key := g.pick("mkey", "m", "p", "q", "[\"c\" + 1]", "[sym]", "0", "\"str key\"", "get", "static", "async", "#priv", "constructor2", "[Symbol.iterator]")
+	// incl. computed keys that are compile-time constants whose evaluation throws
+	key := g.pick("mkey", "m", "p", "q", "[\"c\" + 1]", "[sym]", "0", "\"str key\"", "get", "static", "async", "#priv", "constructor2", "[Symbol.iterator]", "[1n + 1]", "[1n / 0n]", "[2n ** -1n]", "[\"x\" in \"y\"]", "[null.x]", "[1 + 2]", "[-0]", "[1n]")
 	if strings.HasPrefix(key, "#") && g.o.inClass == 0 {
 		key = "m"
 	}
@@ -730,7 +731,7 @@ func (g *syn) expr(d int) string {
 			case 0:
 				parts = append(parts, g.prop()+": "+g.assignExpr(d-1))
 			case 1:
-				parts = append(parts, "["+g.expr(d-1)+"]: "+g.assignExpr(d-1))
+				parts = append(parts, "["+g.pickOr("ckey", func() string { return g.expr(d - 1) }, "1n + 1", "1n / 0n", "2n ** -1n", "\"x\" in \"y\"", "1n * 2", "-(1n) >>> 0n", "1 + 2", "`t`")+"]: "+g.assignExpr(d-1))
 			case 2:
 				parts = append(parts, g.ident())
 			case 3:
